@@ -80,8 +80,12 @@ func TestWorker(t *testing.T) {
 	}
 	verbose := os.Getenv("VERIF_VERBOSE") != ""
 	for r := from; r < to; r++ {
-		seed := RunSeed(base, prop, r)
-		plan := prof.Gen(seed, tier)
+		var plan *Plan
+		if prof.GenOrd != nil {
+			plan = prof.GenOrd(base, r, tier)
+		} else {
+			plan = prof.Gen(RunSeed(base, prop, r), tier)
+		}
 		res := RunPlan(t, plan)
 		full := verbose || len(res.Viol) > 0 || res.Harness != "" || r%50 == 0
 		if full {
